@@ -1755,4 +1755,227 @@ Definition ItInv (ls : leafseq) (lp hp : nat * nat) (st : items) : Prop :=
   (gidx ls lp <= gidx ls (it_cur st) <= gidx ls hp)%nat /\
   it_pseudo st = Z.of_nat (gidx ls (it_cur st)) - Z.of_nat (gidx ls lp).
 
+Lemma seek_right_spec : forall ls s j2 o2 eh, NE ls -> it_last s = (j2, o2) ->
+  entry ls (j2, o2) = Some eh ->
+  forall fuel j off pseudo delta e,
+  entry ls (j, off) = Some e -> (j <= j2)%nat -> 0 <= delta -> (length ls - j < fuel)%nat ->
+  (Z.of_nat (gidx ls (j, off)) + delta <= Z.of_nat (gidx ls (j2, o2)) ->
+     exists cur' e', seek_right V fuel ls s (j, off) pseudo delta = Some (cur', pseudo + delta) /\
+       entry ls cur' = Some e' /\ Z.of_nat (gidx ls cur') = Z.of_nat (gidx ls (j, off)) + delta) /\
+  (Z.of_nat (gidx ls (j2, o2)) < Z.of_nat (gidx ls (j, off)) + delta ->
+     seek_right V fuel ls s (j, off) pseudo delta = None).
+Proof.
+  intros ls s j2 o2 eh Hne Hlast Heh.
+  destruct (entry_valid _ _ _ _ Heh) as [Vj2 Vo2].
+  induction fuel as [|f IH]; intros j off pseudo delta e He Hj Hd Hf; [lia|].
+  destruct (entry_valid _ _ _ _ He) as [Vj Voff].
+  cbn [seek_right fst snd]. rewrite Hlast. cbn [fst snd].
+  unfold gidx in *. cbn [fst snd] in *.
+  set (mx := Z.of_nat (length (nth_leaf V ls j)) - Z.of_nat off - 1).
+  destruct (Z.leb_spec delta mx) as [Hle|Hgt].
+  - destruct ((j =? j2)%nat && (o2 <? off + Z.to_nat delta)%nat) eqn:T.
+    + apply andb_true_iff in T. destruct T as [T1 T2].
+      apply Nat.eqb_eq in T1. apply Nat.ltb_lt in T2. subst j2.
+      split; [intros; lia|reflexivity].
+    + destruct (nth_error_ex (nth_leaf V ls j) (off + Z.to_nat delta)) as [e' He']; [subst mx; lia|].
+      assert (G: (length (concat (firstn j ls)) + (off + Z.to_nat delta) <=
+                  length (concat (firstn j2 ls)) + o2)%nat).
+      { apply andb_false_iff in T. destruct (Nat.eq_dec j j2) as [->|Hn].
+        - destruct T as [T|T]; [apply Nat.eqb_neq in T; congruence|]. apply Nat.ltb_ge in T. lia.
+        - assert (Hlt: (j < j2)%nat) by lia.
+          pose proof (gidx_lt_block ls j (off + Z.to_nat delta) e' j2 He' Hlt) as GB.
+          unfold gidx in GB. simpl in GB. lia. }
+      split; [|intros; lia]. intros _. exists (j, (off + Z.to_nat delta)%nat), e'.
+      split; [reflexivity|]. split; [exact He'|]. cbn [fst snd]. lia.
+  - destruct ((j =? j2)%nat || (length ls <=? S j)%nat) eqn:T.
+    + split; [|reflexivity]. intros C. exfalso.
+      assert (j = j2).
+      { apply orb_true_iff in T. destruct T as [T|T]; [apply Nat.eqb_eq in T; auto|].
+        apply Nat.leb_le in T. lia. }
+      subst j2. subst mx. lia.
+    + apply orb_false_iff in T. destruct T as [T1 T2].
+      apply Nat.eqb_neq in T1. apply Nat.leb_gt in T2.
+      assert (He1: exists e1, entry ls (S j, O) = Some e1).
+      { pose proof (NE_nth ls (S j) Hne T2) as N. unfold entry. cbn [fst snd].
+        destruct (nth_leaf V ls (S j)) as [|e1 ?]; [congruence|]. exists e1. reflexivity. }
+      destruct He1 as [e1 He1].
+      specialize (IH (S j) O (pseudo + mx + 1) (delta - (mx + 1)) e1 He1
+                     ltac:(lia) ltac:(lia) ltac:(lia)).
+      rewrite len_firstn_S in IH. destruct IH as [I1 I2]. split.
+      * intros C. destruct I1 as [cur' [e' [Hs [He' Hg]]]]; [subst mx; lia|].
+        exists cur', e'. split; [|split; auto].
+        -- rewrite Hs. f_equal. f_equal. lia.
+        -- subst mx. lia.
+      * intros C. apply I2. subst mx. lia.
+Qed.
+
+Lemma seek_left_spec : forall ls s j1 o1 el, NE ls -> it_first s = (j1, o1) ->
+  entry ls (j1, o1) = Some el ->
+  forall fuel j off pseudo delta e,
+  entry ls (j, off) = Some e -> (j1 <= j)%nat -> delta <= 0 -> (j < fuel)%nat ->
+  (Z.of_nat (gidx ls (j1, o1)) <= Z.of_nat (gidx ls (j, off)) + delta ->
+     exists cur' e', seek_left V fuel ls s (j, off) pseudo delta = Some (cur', pseudo + delta) /\
+       entry ls cur' = Some e' /\ Z.of_nat (gidx ls cur') = Z.of_nat (gidx ls (j, off)) + delta) /\
+  (Z.of_nat (gidx ls (j, off)) + delta < Z.of_nat (gidx ls (j1, o1)) ->
+     seek_left V fuel ls s (j, off) pseudo delta = None).
+Proof.
+  intros ls s j1 o1 el Hne Hfirst Hel.
+  destruct (entry_valid _ _ _ _ Hel) as [Vj1 Vo1].
+  induction fuel as [|f IH]; intros j off pseudo delta e He Hj Hd Hf; [lia|].
+  destruct (entry_valid _ _ _ _ He) as [Vj Voff].
+  cbn [seek_left fst snd]. rewrite Hfirst. cbn [fst snd].
+  unfold gidx in *. cbn [fst snd] in *.
+  destruct (Z.leb_spec (- delta) (Z.of_nat off)) as [Hle|Hgt].
+  - destruct ((j =? j1)%nat && (Z.to_nat (Z.of_nat off + delta) <? o1)%nat) eqn:T.
+    + apply andb_true_iff in T. destruct T as [T1 T2].
+      apply Nat.eqb_eq in T1. apply Nat.ltb_lt in T2. subst j1.
+      split; [intros; lia|reflexivity].
+    + destruct (nth_error_ex (nth_leaf V ls j) (Z.to_nat (Z.of_nat off + delta))) as [e' He']; [lia|].
+      assert (G: (length (concat (firstn j1 ls)) + o1 <=
+                  length (concat (firstn j ls)) + Z.to_nat (Z.of_nat off + delta))%nat).
+      { apply andb_false_iff in T. destruct (Nat.eq_dec j j1) as [->|Hn].
+        - destruct T as [T|T]; [apply Nat.eqb_neq in T; congruence|]. apply Nat.ltb_ge in T. lia.
+        - assert (Hlt: (j1 < j)%nat) by lia.
+          pose proof (gidx_lt_block ls j1 o1 el j Hel Hlt) as GB.
+          unfold gidx in GB. simpl in GB. lia. }
+      split; [|intros; lia]. intros _. exists (j, Z.to_nat (Z.of_nat off + delta)), e'.
+      split; [reflexivity|]. split; [exact He'|]. cbn [fst snd]. lia.
+  - destruct (Nat.eqb_spec j j1) as [->|Hn].
+    + split; [|reflexivity]. intros C. exfalso. lia.
+    + destruct j as [|p]; [lia|].
+      assert (Vp: (p < length ls)%nat) by lia.
+      pose proof (NE_nth ls p Hne Vp) as N.
+      assert (He1: exists e1, entry ls (p, (length (nth_leaf V ls p) - 1)%nat) = Some e1).
+      { unfold entry. cbn [fst snd]. apply nth_error_ex.
+        destruct (nth_leaf V ls p); [congruence|]. simpl. lia. }
+      destruct He1 as [e1 He1].
+      assert (Lp: (0 < length (nth_leaf V ls p))%nat).
+      { destruct (nth_leaf V ls p); [congruence|]. simpl. lia. }
+      specialize (IH p (length (nth_leaf V ls p) - 1)%nat (pseudo - (Z.of_nat off + 1))
+                     (delta + (Z.of_nat off + 1)) e1 He1 ltac:(lia) ltac:(lia) ltac:(lia)).
+      rewrite len_firstn_S in *. destruct IH as [I1 I2]. split.
+      * intros C. destruct I1 as [cur' [e' [Hs [He' Hg]]]]; [lia|].
+        exists cur', e'. split; [|split; auto].
+        -- rewrite Hs. f_equal. f_equal. lia.
+        -- lia.
+      * intros C. apply I2. lia.
+Qed.
+
+Lemma c_seek_spec : forall ls lp hp el eh st i, NE ls ->
+  entry ls lp = Some el -> entry ls hp = Some eh -> ItInv ls lp hp st -> 0 <= i ->
+  (i < Z.of_nat (gidx ls hp + 1 - gidx ls lp) ->
+     exists st', c_seek V ls st i = Some st' /\ ItInv ls lp hp st' /\
+                 Z.of_nat (gidx ls (it_cur st')) = Z.of_nat (gidx ls lp) + i) /\
+  (Z.of_nat (gidx ls hp + 1 - gidx ls lp) <= i -> c_seek V ls st i = None).
+Proof.
+  intros ls [j1 o1] [j2 o2] el eh st i Hne Hel Heh [F [L [[e He] [Hb Hps]]]] Hi.
+  destruct (it_cur st) as [j off] eqn:Ec.
+  assert (Hj1: (j1 <= j)%nat) by (eapply (gidx_le_fst ls j1 o1 el j off e); eauto; lia).
+  assert (Hj2: (j <= j2)%nat) by (eapply (gidx_le_fst ls j off e j2 o2 eh); eauto; lia).
+  destruct (entry_valid _ _ _ _ He) as [Vj _].
+  unfold c_seek. rewrite Ec. set (delta := i - it_pseudo st).
+  destruct (Z.ltb_spec 0 delta) as [D1|D1].
+  - destruct (seek_right_spec ls st j2 o2 eh Hne L Heh (S (length ls)) j off (it_pseudo st) delta e
+                He Hj2 ltac:(lia) ltac:(lia)) as [R1 R2].
+    split.
+    + intros C. destruct R1 as [cur' [e' [Hs [He' Hg]]]]; [subst delta; lia|].
+      rewrite Hs. eexists. split; [reflexivity|]. split.
+      * unfold ItInv. cbn [it_first it_last it_cur it_pseudo].
+        split; [auto|]. split; [auto|]. split; [eauto|]. split; [subst delta; lia|subst delta; lia].
+      * cbn [it_cur]. subst delta. lia.
+    + intros C. rewrite R2; [reflexivity|subst delta; lia].
+  - destruct (Z.ltb_spec delta 0) as [D2|D2].
+    + destruct (seek_left_spec ls st j1 o1 el Hne F Hel (S (length ls)) j off (it_pseudo st) delta e
+                  He Hj1 ltac:(lia) ltac:(lia)) as [R1 R2].
+      split; [|intros C; exfalso; subst delta; lia].
+      intros C. destruct R1 as [cur' [e' [Hs [He' Hg]]]]; [subst delta; lia|].
+      rewrite Hs. eexists. split; [reflexivity|]. split.
+      * unfold ItInv. cbn [it_first it_last it_cur it_pseudo].
+        split; [auto|]. split; [auto|]. split; [eauto|]. split; [subst delta; lia|subst delta; lia].
+      * cbn [it_cur]. subst delta. lia.
+    + split; [|intros C; exfalso; subst delta; lia].
+      intros C. eexists. split; [reflexivity|]. split.
+      * unfold ItInv. cbn [it_first it_last it_cur it_pseudo].
+        split; [auto|]. split; [auto|]. split; [eauto|]. split; [lia|lia].
+      * cbn [it_cur]. subst delta. lia.
+Qed.
+
+Lemma index_run_none : forall ls idx, c_index_run V ls None idx = map (RSpec.index []) idx.
+Proof.
+  intros ls. induction idx as [|i r IH]; [reflexivity|]. cbn [c_index_run map]. rewrite IH. f_equal.
+  unfold RSpec.index. simpl length. cbv zeta.
+  destruct ((if i <? 0 then i + Z.of_nat 0 else i) <? 0) eqn:E1; [reflexivity|].
+  destruct (Z.of_nat 0 <=? (if i <? 0 then i + Z.of_nat 0 else i)) eqn:E2; [reflexivity|].
+  apply Z.ltb_ge in E1. apply Z.leb_gt in E2. simpl in *. lia.
+Qed.
+
+Lemma c_index_run_spec : forall ls lp hp el eh, NE ls ->
+  entry ls lp = Some el -> entry ls hp = Some eh -> (gidx ls lp <= gidx ls hp)%nat ->
+  forall idx st, ItInv ls lp hp st ->
+  c_index_run V ls (Some st) idx =
+  map (RSpec.index (seg (concat ls) (gidx ls lp) (gidx ls hp + 1))) idx.
+Proof.
+  intros ls lp hp el eh Hne Hel Heh Hg.
+  assert (Hfst: (fst lp <= fst hp)%nat).
+  { destruct lp as [j1 o1], hp as [j2 o2]. eapply gidx_le_fst; eauto. }
+  assert (Hlen: (gidx ls hp + 1 <= length (concat ls))%nat).
+  { destruct hp as [j2 o2]. pose proof (gidx_lt_len _ _ _ _ Heh). lia. }
+  induction idx as [|i r IH]; intros st Inv; [reflexivity|].
+  cbn [c_index_run map]. pose proof Inv as [F [L _]].
+  rewrite (c_len_eq ls st lp hp F L Hfst).
+  set (n := Z.of_nat (gidx ls hp + 1 - gidx ls lp)).
+  set (j := if i <? 0 then i + n else i).
+  assert (Hidx: RSpec.index (seg (concat ls) (gidx ls lp) (gidx ls hp + 1)) i =
+                if (j <? 0) || (n <=? j) then None
+                else nth_error (seg (concat ls) (gidx ls lp) (gidx ls hp + 1)) (Z.to_nat j)).
+  { unfold RSpec.index. rewrite (length_seg _ _ _ Hlen). reflexivity. }
+  rewrite Hidx. clear Hidx.
+  destruct (Z.ltb_spec j 0) as [J0|J0].
+  - cbn [orb]. f_equal. apply IH; auto.
+  - destruct (c_seek_spec ls lp hp el eh st j Hne Hel Heh Inv J0) as [S1 S2]. fold n in S1, S2.
+    destruct (Z.leb_spec n j) as [Jn|Jn].
+    + rewrite (S2 Jn). cbn [orb]. f_equal. apply IH; auto.
+    + destruct (S1 Jn) as [st' [Hs [Inv' Hc]]]. rewrite Hs. cbn [orb]. f_equal; [|apply IH; auto].
+      unfold c_entry. destruct Inv' as [_ [_ [[e' He'] _]]].
+      destruct (it_cur st') as [j' off'] eqn:Ec.
+      change (entry ls (j', off') = nth_error (seg (concat ls) (gidx ls lp) (gidx ls hp + 1)) (Z.to_nat j)).
+      rewrite nth_error_seg. subst n.
+      destruct (Nat.ltb_spec (Z.to_nat j) (gidx ls hp + 1 - gidx ls lp)); [|lia].
+      rewrite He'. symmetry. apply entry_gidx in He'.
+      replace (gidx ls lp + Z.to_nat j)%nat with (gidx ls (j', off')) by lia. exact He'.
+Qed.
+
+Lemma c_lazyseq_correct : forall (t : tree) (lo hi : option Z) (exlo exhi : bool) (idx : list Z),
+  wf_search V t = true ->
+  let l := RSpec.range (contents V t) lo hi exlo exhi in
+  (match c_items_of V t lo hi exlo exhi with
+   | Some s => c_len V (lseq V t) s = length l
+   | None => l = []
+   end) /\
+  c_index_run V (lseq V t) (c_items_of V t lo hi exlo exhi) idx = map (RSpec.index l) idx.
+Proof.
+  intros t lo hi exlo exhi idx H. cbv zeta.
+  destruct (wf_top t H) as [[E1 E2]|[HLS HFL]].
+  - unfold c_items_of, c_range_ends. rewrite E1, E2, range_nil. split; auto. apply index_run_none.
+  - pose proof (c_range_correct t lo hi exlo exhi H) as CR. unfold c_range in CR.
+    pose proof HLS as [Hnn [Hne Hss]].
+    unfold c_items_of. rewrite c_range_ends_eq in * by auto.
+    pose proof (ends_ls_spec _ _ lo hi exlo exhi HLS HFL) as HS.
+    destruct (ends_ls (lseq V t) (find_leaf V t) lo hi exlo exhi) as [[lp hp]|]; simpl in HS.
+    + destruct HS as [el [eh [Hel [Heh [Hle _]]]]]. rewrite <- CR, between_seg.
+      assert (Hg: (gidx (lseq V t) lp <= gidx (lseq V t) hp)%nat).
+      { destruct lp as [j1 o1], hp as [j2 o2].
+        eapply (ss_nth_le_inv (concat (lseq V t))); eauto using entry_gidx. }
+      assert (Hfst: (fst lp <= fst hp)%nat).
+      { destruct lp as [j1 o1], hp as [j2 o2]. eapply gidx_le_fst; eauto. }
+      assert (Hlen: (gidx (lseq V t) hp + 1 <= length (concat (lseq V t)))%nat).
+      { destruct hp as [j2 o2]. pose proof (gidx_lt_len _ _ _ _ Heh). lia. }
+      split.
+      * rewrite (c_len_eq (lseq V t) (mkItems lp hp lp 0) lp hp eq_refl eq_refl Hfst), length_seg; auto.
+      * apply (c_index_run_spec _ lp hp el eh); auto.
+        unfold ItInv. cbn [it_first it_last it_cur it_pseudo].
+        split; [auto|]. split; [auto|]. split; [eauto|]. split; lia.
+    + rewrite <- CR. split; auto. apply index_run_none.
+Qed.
+
 End RP.
